@@ -19,7 +19,7 @@ def register(K):
                modifies=RUN_FRAME, may_raise=ERR, exact_raises=False, ensures=[],
                logs=[("opcode-run", ["self", "interpreter"])])
 
-    K.contract("fickle.Pickled.__iter__", params="self: fickle.Pickled", returns="iterator[fickle.Opcode]", ensures=["iterates(result, self._opcodes)"])
+    K.contract("fickle.Pickled.__iter__", params="self: fickle.Pickled", returns="iterator[fickle.Opcode]", ensures=["iterates(result, self._opcodes)", "fresh_since_entry(result)"])
     K.contract("fickle.Pickled.__len__", params="self: fickle.Pickled", returns="int", pure=True, ensures=["result == len(self._opcodes)"])
     K.contract("fickle.Pickled.__getitem__", params="self: fickle.Pickled, index: val", returns="val", pure=True,
                raises={"IndexError": "index_out_of_range(index, len(self._opcodes))"}, ensures=["getitem_eq(result, self._opcodes, index)"])
@@ -28,8 +28,7 @@ def register(K):
     def iterates(eng, st, it, lst):
         """`it` is a fresh list iterator positioned at the start of list object `lst`"""
         r = eng.as_ref(eng.materialize(it, st), st)
-        base = eng.old_state.alloc_ptr() if eng.old_state is not None else st.alloc_ptr()
-        return vbool(z3.And(st.read("iterator.seq", r, Int) == eng.as_ref(lst, st), st.read("iterator.pos", r, Int) == 0, r >= base))
+        return vbool(z3.And(st.read("iterator.seq", r, Int) == eng.as_ref(lst, st), st.read("iterator.pos", r, Int) == 0))
 
     K.contract("fickle.Interpreter.__init__",
                params="self: fickle.Interpreter, pickled: fickle.Pickled, first_variable_id: int = 0, result_variable: str = 'result'",
@@ -37,7 +36,7 @@ def register(K):
                          "self._var_counter", "self._opcodes"],
                ensures=["self.pickled is pickled", "self._var_counter == first_variable_id", "self.result_variable == result_variable",
                         "self._module is None", "len(self.stack._stack) == 0", "len(self.module_body._list) == 0", "len(self.memory) == 0",
-                        "iterates(self._opcodes, pickled._opcodes)", "fresh_since_entry(self.stack)", "fresh_since_entry(self.module_body)",
+                        "iterates(self._opcodes, pickled._opcodes)", "fresh_since_entry(self._opcodes)", "fresh_since_entry(self.stack)", "fresh_since_entry(self.module_body)",
                         "fresh_since_entry(self.memory)", "fresh_since_entry(self.stack._stack)", "fresh_since_entry(self.module_body._list)"])
     K.contract("fickle.Interpreter.next_variable_id", params="self: fickle.Interpreter", returns="int", pure=True,
                ensures=["result == self._var_counter"])
